@@ -203,3 +203,109 @@ Theorem C13_fallback_used_for_unlisted_pinned_refuted :
     table_update_pinned tbl fb n orig r = Raise EKeyError.
 Proof. exact fallback_used_for_unlisted_pinned_refuted. Qed.
 Print Assumptions C13_fallback_used_for_unlisted_pinned_refuted.
+
+(* ---------------------------------------------------------------------- *)
+(* The tie to the source TEXT.  Streams/Gen_Streams.v is regenerated on every
+   run by translator/py2gallina_streams.py from src/pydsol/core/streams.py of the
+   tree under test (Python `ast`, fail-closed: the bodies of
+   SimpleStreamUpdater.update_seed -- including the loop over the characters of
+   the name --, StreamSeedUpdater.update_seed and StreamUpdater.update_seeds),
+   and Streams/GenAgree.v proves every generated definition equal to the
+   hand-written model function on ALL arguments (ill-typed ones included).  This
+   section is compiled against the regenerated file: the theorems above
+   therefore speak about the current source text.  A change of a method's
+   meaning makes GenAgree.v fail to compile: the check then searches for a
+   failing input and reports the broken tie. *)
+From PV Require Import Streams.Gen_Streams Streams.GenAgree.
+Import Upd C13Agree.
+
+Theorem C13_generated_model_is_the_proved_model :
+  (forall k st r, gen_SimpleStreamUpdater_update_seed k st r = upd_spec (simple_update str_hash) k st r) /\
+  (forall s k st r, gen_StreamSeedUpdater_update_seed s k st r =
+                    upd_spec (table_update (ssu_seeds s) (ssu_fallback s)) k st r) /\
+  (forall upd f, (forall k st r, upd k st r = upd_spec f k st r) ->
+     forall l r, to_model (gen_StreamUpdater_update_seeds upd l r) = update_seeds f r l) /\
+  (forall upd f, (forall k st r, upd k st r = upd_spec f k st r) ->
+     forall r i l, gen_update_one upd r i l = update_one f r i l) /\
+  (forall u k st r, gen_updater u k st r = upd_spec (updater_fun str_hash u) k st r) /\
+  (forall u c l, gen_do_call (gen_updater u) c l = do_call (updater_fun str_hash u) c l) /\
+  (forall c, gen_case_ok c = case_ok c).
+Proof. exact updaters_generated_agree. Qed.
+Print Assumptions C13_generated_model_is_the_proved_model.
+
+(* the generated update_seeds, driven by the generated update_seed of any updater
+   configuration, IS update_list of the closed updater function *)
+Theorem C13_generated_update_is_update_list :
+  forall (u : updater) (r : Z) (l : list entry),
+    to_model (gen_StreamUpdater_update_seeds (gen_updater u) l (RInt r)) =
+    update_list (updater_fun str_hash u) r l.
+Proof.
+  intros u r l.
+  exact (gen_StreamUpdater_update_seeds_eq (gen_updater u) (updater_fun str_hash u) (gen_updater_eq u) l (RInt r)).
+Qed.
+Print Assumptions C13_generated_update_is_update_list.
+
+(* C13_seed_depends_only_on_name_seed_replication, for the generated methods *)
+Theorem C13_generated_seed_depends_only_on_name_seed_replication :
+  forall (u : updater) (r : Z) (l1 l1' l2 l2' : list entry) (e1 e2 : entry),
+    gen_StreamUpdater_update_seeds (gen_updater u) l1 (RInt r) = (l1', Ret tt) ->
+    gen_StreamUpdater_update_seeds (gen_updater u) l2 (RInt r) = (l2', Ret tt) ->
+    In e1 l1' -> In e2 l2' ->
+    e_name e1 = e_name e2 -> e_orig e1 = e_orig e2 ->
+    e_cur e1 = e_cur e2.
+Proof.
+  intros u r l1 l1' l2 l2' e1 e2 H1 H2.
+  apply (C13_seed_depends_only_on_name_seed_replication (updater_fun str_hash u) r l1 l1' l2 l2').
+  - rewrite <- C13_generated_update_is_update_list, H1. reflexivity.
+  - rewrite <- C13_generated_update_is_update_list, H2. reflexivity.
+Qed.
+Print Assumptions C13_generated_seed_depends_only_on_name_seed_replication.
+
+(* C13_order_independent_by_name, for the generated methods *)
+Theorem C13_generated_order_independent_by_name :
+  forall (u : updater) (r : Z) (l l2 l' l2' : list entry) (n : name),
+    NoDup (map e_name l) -> Permutation l l2 ->
+    gen_StreamUpdater_update_seeds (gen_updater u) l (RInt r) = (l', Ret tt) ->
+    gen_StreamUpdater_update_seeds (gen_updater u) l2 (RInt r) = (l2', Ret tt) ->
+    seed_of n l' = seed_of n l2'.
+Proof.
+  intros u r l l2 l' l2' n Hn Hp H1 H2.
+  apply (C13_order_independent_by_name (updater_fun str_hash u) r l l2 l' l2' n Hn Hp).
+  - rewrite <- C13_generated_update_is_update_list, H1. reflexivity.
+  - rewrite <- C13_generated_update_is_update_list, H2. reflexivity.
+Qed.
+Print Assumptions C13_generated_order_independent_by_name.
+
+(* C13_refused_unchanged, for the generated methods: an exception out of the generated
+   update_seeds leaves the refused stream and every later one exactly as it was *)
+Theorem C13_generated_refused_unchanged :
+  forall (u : updater) (r : Z) (l l' : list entry) (x : exn),
+    gen_StreamUpdater_update_seeds (gen_updater u) l (RInt r) = (l', Exc x) ->
+    exists pre e post,
+      l = pre ++ e :: post /\ update_entry (updater_fun str_hash u) r e = Raise x /\
+      (forall a, In a pre -> is_val (update_entry (updater_fun str_hash u) r a)) /\
+      l' = map (apply_update (updater_fun str_hash u) r) pre ++ e :: post.
+Proof.
+  intros u r l l' x H.
+  apply (C13_refused_unchanged (updater_fun str_hash u) r l l' x).
+  rewrite <- C13_generated_update_is_update_list, H. reflexivity.
+Qed.
+Print Assumptions C13_generated_refused_unchanged.
+
+(* the closed form of the repaired SimpleStreamUpdater, for the generated method *)
+Theorem C13_generated_simple_updater_spec :
+  forall (n : name) (orig cur r : Z), 0 <= r ->
+    gen_SimpleStreamUpdater_update_seed (KeyStr n) (StreamObj orig cur) (RInt r) =
+    (StreamObj orig (orig + r * (1000037 + str_hash n)), Ret tt).
+Proof.
+  intros n orig cur r Hr. rewrite gen_SimpleStreamUpdater_update_seed_eq.
+  unfold upd_spec, simple_update. destruct (r <? 0) eqn:E; [apply Z.ltb_lt in E; exfalso; exact (proj1 (Z.lt_nge r 0) E Hr)|reflexivity].
+Qed.
+Print Assumptions C13_generated_simple_updater_spec.
+
+Example C13_generated_nonvacuous :
+  let l := [mkE KStream [100; 101] 10 10; mkE KStream [97] 3 77; mkE KStream [] (-4) 0] in
+  gen_StreamUpdater_update_seeds (gen_updater (UTable [([97], [5; 6; 7])] FSimple)) l (RInt 2) =
+    ([mkE KStream [100; 101] 10 2006486; mkE KStream [97] 3 7; mkE KStream [] (-4) 2000070], Ret tt) /\
+  snd (gen_StreamUpdater_update_seeds (gen_updater (UTable [([97], [5; 6; 7])] FSimple)) l (RInt 3)) = Exc EValueError.
+Proof. cbv zeta. split; vm_compute; reflexivity. Qed.
